@@ -234,8 +234,12 @@ func caseSize(c *Case) int {
 func minimise(p Property, c *Case, v Violation, tier string, index int, budget int) (*Case, int) {
 	best := cloneCase(c)
 	execs := 0
+	// wall-clock bound as well: minimality of the replay file is a convenience,
+	// the verdict never depends on it
+	deadline := time.Now().Add(25 * time.Second)
 	try := func(cand *Case) bool {
-		if execs >= budget {
+		if execs >= budget || time.Now().After(deadline) {
+			execs = budget
 			return false
 		}
 		execs++
